@@ -70,8 +70,17 @@ def entries(root, prefix='.'):
     return res
 
 
+# keys whose column stands only in a later argument of a function (the first argument is a constant); not part of the C05 key lists
+EXTRA_KEYS = {
+    "concat_ws('-', ext, name)": ('str', lambda e: e['ext'] + '-' + e['name']),
+    'least(99999999, size)': ('num', lambda e: e['size']),
+    'greatest(0, size)': ('num', lambda e: e['size']),
+    "concat('k', name)": ('str', lambda e: 'k' + e['name']),
+}
+
+
 def keyvec(e, keys):
-    return tuple(KEYS[k][1](e) for k in keys)
+    return tuple((KEYS.get(k) or EXTRA_KEYS[k])[1](e) for k in keys)
 
 
 def sorted_ok(vecs, dirs):
@@ -93,7 +102,7 @@ def full_sort(ents, keys, dirs):
 
     def cmp(a, b):
         for k, asc in zip(keys, dirs):
-            x, y = KEYS[k][1](a), KEYS[k][1](b)
+            x, y = (KEYS.get(k) or EXTRA_KEYS[k])[1](a), (KEYS.get(k) or EXTRA_KEYS[k])[1](b)
             if x != y:
                 return (-1 if x < y else 1) * (1 if asc else -1)
         return 0
